@@ -215,7 +215,7 @@ fn what_if_contents(w: &World, mi: usize, prog: &Market, supply: u64, obs: &mut 
             for key in MarketConfigKey::iter() {
                 if r.chance(1, 5) {
                     if let Ok(v) = pc.get_config_mut(&key.to_string()) {
-                        *v = *r.pick(&[0u128, 1, UNIT / 1000, UNIT / 100, UNIT / 2, UNIT, 3 * UNIT]) + r.range(0, 1000) as u128;
+                        *v = *r.pick(&[0u128, 0, 1, UNIT / 1000, UNIT / 100, UNIT / 2, UNIT, 3 * UNIT]) + if r.bool() { r.range(0, 1000) as u128 } else { 0 };
                     }
                 }
             }
